@@ -13,7 +13,11 @@ typedef ob::RealVectorStateSpace S;
 #ifndef BMAX
 #define BMAX 1e6
 #endif
-alignas(16) static char sp_buf[sizeof(S)];
+// typed, zero-initialised storage whose constructor/destructor never run (a char buffer would make CBMC treat the members
+// byte-wise, e.g. stateBytes_ as a symbolic memcpy length)
+union SpaceHolder { S s; SpaceHolder() {} ~SpaceHolder() {} };
+static SpaceHolder g_holder;
+#define sp_buf ((char *)&g_holder)
 static double g_lo[DIM], g_hi[DIM];
 VT_DECLARE_VTABLE(RV, "_ZTVN4ompl4base20RealVectorStateSpaceE")
 static S *space()
@@ -42,13 +46,27 @@ extern "C" void harness_rv_distance()
     S *sp = space();
     St a, b;
     inb(a); inb(b);
-    double ab = sp->S::distance(&a, &b), ba = sp->S::distance(&b, &a);
+    double ab = sp->S::distance(&a, &b);
     VT_CHECK(ab >= 0.0, "distance is non-negative");
-    VT_CHECK(vt_same_bits(ab, ba), "distance is symmetric");
     VT_CHECK(sp->S::distance(&a, &a) == 0.0, "distance from a state to itself is zero");
-    if (!sp->S::equalStates(&a, &b)) VT_CHECK(ab > 0.0, "distance is positive between states that are not equal");
     VT_CHECK(sp->S::equalStates(&a, &a), "a state equals itself");
     vt_cover("rv distance end");
+}
+extern "C" void harness_rv_symmetric()
+{
+    S *sp = space();
+    St a, b;
+    inb(a); inb(b);
+    VT_CHECK(vt_same_bits(sp->S::distance(&a, &b), sp->S::distance(&b, &a)), "distance is symmetric");
+    vt_cover("rv symmetric end");
+}
+extern "C" void harness_rv_positive()
+{
+    S *sp = space();
+    St a, b;
+    inb(a); inb(b);
+    if (!sp->S::equalStates(&a, &b)) VT_CHECK(sp->S::distance(&a, &b) > 0.0, "distance is positive between states that are not equal");
+    vt_cover("rv positive end");
 }
 extern "C" void harness_rv_extent()
 {
@@ -126,7 +144,15 @@ extern "C" void harness_rv_interp_bounds()
     inb(a); inb(b);
     double t = vt_double_in(0.0, 1.0);
     sp->S::interpolate(&a, &b, t, &c);
+#ifdef VT_EXCL_KF_LERP_ROUNDOFF
+    for (int i = 0; i < DIM; ++i)
+    {   // known finding excluded: only a relative round-off tolerance is demanded
+        double tol = 1e-9 * (1.0 + __builtin_fabs(a.v[i]) + __builtin_fabs(b.v[i]));
+        VT_CHECK(c.v[i] >= g_lo[i] - tol && c.v[i] <= g_hi[i] + tol, "interpolated state is within bounds");
+    }
+#else
     VT_CHECK(sp->S::satisfiesBounds(&c), "interpolated state is within bounds");
+#endif
     vt_cover("rv interp bounds end");
 }
 extern "C" void harness_rv_t0()
